@@ -347,7 +347,7 @@ func (e *Engine) verifyFunction(fn *ssa.Function, noMerge bool) *FuncReport {
 			}
 		}
 	}
-	ex.deadline = time.Now().Add(time.Duration(envInt("GOV_FN_SECONDS", 30)) * time.Second)
+	ex.deadline = time.Now().Add(time.Duration(envInt("GOV_FN_SECONDS", 300)) * time.Second)
 	func() {
 		defer func() {
 			if r := recover(); r != nil {
@@ -378,6 +378,9 @@ func (e *Engine) verifyFunction(fn *ssa.Function, noMerge bool) *FuncReport {
 	}
 	rep.Paths = ex.paths
 	rep.Steps = ex.steps
+	if traceOn {
+		fmt.Printf("PRUNESTATS %s calls=%d pruned=%d seconds=%.1f\n", rep.Fn, ex.pruneCalls, ex.prunePruned, ex.pruneNs/1e9)
+	}
 	rep.Failed = dedupe(ex.failed)
 	rep.Inlined = keys(ex.inlined)
 	rep.UsedCtr = keys(ex.usedCtr)
